@@ -8,6 +8,12 @@ namespace gs
 {
 inline gstuff_context ctx_of(const Alphabet &a)
 {
+    // the two alphabets the library ships come from the library's own definitions (default-constructed context,
+    // gstuff_context_v0()); the harness' Alphabet constants are the independent reference they are measured against
+    if (a.start == kV1.start && a.stop == kV1.stop)
+        return gstuff_context();
+    if (a.start == kV0.start && a.stop == kV0.stop)
+        return gstuff_context_v0();
     gstuff_context c;
     c.GSTUFF_START = (char)a.start;
     c.GSTUFF_STOP = (char)a.stop;
